@@ -755,7 +755,10 @@ theorem cli_validate_accepts_what_dispatch_refuses_counterexample {ε ρ : Type}
 both flags), every configuration file (unreadable, unbuildable, good), EVERY query file — missing, a directory
 (opens, cannot be read), readable with blank lines, lines that are not JSON, a document that is no batch —, every
 per-run configuration: an `Ok` or an `Err` of the call.  `_partial` as `call_never_panics_partial`: total
-`respond`, the plugins of the model.  (Before fix fffeda5 the statement needed "the query file is not
+`respond`, the plugins of the model.  Built into the model's types rather than proved: reading and building the
+configuration return (`ConfigFile` has three total outcomes), and a readable query file is a FINITE list of
+lines (a FIFO or a character device such as /dev/urandom passes the directory test and is outside the model).
+(Before fix 08a69e9 the statement needed "the query file is not
 `unreadable`": see `cli_unreadable_query_file_refused`.) -/
 theorem cli_never_panics_partial {α : Type} (W : WOps α) (env : String → Bool × Bool) (app : App)
     (runCfg : Option Json) (respond : Json → Json) (a : Cli.CliArgs)
@@ -767,7 +770,8 @@ theorem cli_never_panics_partial {α : Type} (W : WOps α) (env : String → Boo
 /-- **`command_line_runner` does not run without bound unless a run does**: for EVERY batch runner that never
 diverges (it may fail, it may panic), every argument combination (any integer as chunk size), every
 configuration file and every query file of the model — the directory included — the call does not diverge: the
-loop over the chunks makes one run per chunk of a finite file and stops at the first failing one. -/
+loop over the chunks makes one run per chunk of a finite file and stops at the first failing one.  (Same
+environment assumptions as `cli_never_panics_partial`: the application build returns, the file is finite.) -/
 theorem cli_never_diverges {ε ρ : Type} (run : List Json → Outcome (Except ε ρ))
     (hrun : ∀ b, run b ≠ .diverges) (a : Cli.CliArgs) (cfg : Cli.ConfigFile) (file : Cli.QueryFile) :
     Cli.commandLineRunnerO run a cfg file ≠ .diverges :=
